@@ -24,8 +24,13 @@ ENGINES = [
 CHECKS = {}
 for _f in sorted(glob.glob(os.path.join(_V, "harness", "*", "check.py"))):
     _ns = {}
-    exec(compile(open(_f).read(), _f, "exec"), _ns)
-    _c = _ns["CHECK"]
+    try:
+        exec(compile(open(_f).read(), _f, "exec"), _ns)
+        _c = _ns["CHECK"]
+    except Exception as _e:  # a broken fragment must not take the other checks down
+        import sys
+        sys.stderr.write("checks.py: skipping %s: %r\n" % (_f, _e))
+        continue
     if _c.get("enabled", True):
         CHECKS[_c["id"]] = _c
 
